@@ -100,7 +100,7 @@ Print Assumptions call_footprint_sound.
 Theorem call_writes_declared :
   forall k l, call_wf k = true -> fresh_base <= c_mr k ->
     fW (fp_of_code (call_code k)) l = true -> declared_W (c_client k) l = true.
-Proof. exact call_writes_declared_l. Qed.
+Proof. exact (call_writes_declared_l default_mv). Qed.
 Print Assumptions call_writes_declared.
 
 (* Alone, from any store whose memo cells are empty or correctly filled, an
